@@ -195,7 +195,7 @@ Section Pool.
 
   (* first slot at which a key function fails for this tx *)
   Definition err_slot (h : N) : option N :=
-    (* since repo commit 8d9781ec the input-slot key function enumerates the
+    (* since repo commit 3df33612 the input-slot key function enumerates the
        transaction's own outpoints and cannot fail (before, it went through
        UTXOCache.GetTxReference and failed when [t_refok] was false) *)
     let e_in := match inputs_slot with
